@@ -345,7 +345,7 @@ Proof.
   all: destruct (r_hdr r); try (injection H13 as H1 H2; subst; right; left; eexists; split; reflexivity).
   all: repeat (break_if; try (injection H13 as H1 H2; subst; right; left; eexists; split; reflexivity)).
   all: zb; try contradiction; try (specialize (Hal ltac:(assumption)); congruence).
-  all: try (injection H13 as H1 H2; subst; right; right; cbn; repeat split; auto; apply Z.leb_le; assumption).
+  all: try (injection H13; intros; subst; right; right; cbn; repeat split; auto; apply Z.leb_le; assumption).
 Qed.
 
 (* ------------------------------------------------------------------ non-vacuity *)
